@@ -105,6 +105,22 @@ CLAIMED.update({
     ),
 })
 
+CLAIMED.update({
+    "C04": (
+        "Coq proofs over the point/weight formulas re-translated from transform_1d_grid each run (list induction, Coquelicot RInt change of variables) + interval correspondence",
+        "8 theorems on the formulas regenerated from BaseTransform.transform_1d_grid (composed with C03's regenerated transforms): nodes are the "
+        "mapped nodes; the sum of f over the new grid equals the old rule applied to f(r(x)) times the Jacobian factor (= its magnitude wherever "
+        "the factor is non-negative), for every grid and integrand; non-negative weights stay non-negative for increasing maps; the new domain is "
+        "ordered and contains every node for monotone maps in either direction; a rule exact to degree D on [-1,1] mapped linearly to [a,b] is "
+        "exact to degree D on [a,b] (affine substitution closure + RInt_comp_lin). `weights_nonneg_decreasing` is REFUTED on the current code "
+        "(signed derivative; known finding pinned by the test-suite).",
+        "Trusted: Coq kernel; stdlib real axioms; pattern-checked translator of transform_1d_grid + C03's translator (validated by interval "
+        "enclosures); oracle hypothesis of exactness transport (reference rule exact to degree D; validated for Gauss-Legendre with exact "
+        "rational moments by the sweep); OneDGrid's domain validation and np.sort of the image are checked on the implementation only.",
+        "DESIGN.md section 6 C04",
+    ),
+})
+
 NOT_YET = {
     # pid: reason (kept current; a property moves to CLAIMED once its check is green on the unchanged tree)
 }
